@@ -64,6 +64,7 @@ func vkRunTCPCase(w *vkSrvWorld, tc vkTCPCase) (string, string, string) {
 		}
 	}
 	defer w.purge(frames)
+	w.newTCP(1) // fresh engine per case (slabs, stream pool, tokens)
 	before := w.stub.count()
 	c := vkNewConn(vkTagA, 0)
 	if h := w.start(c); h != "" {
